@@ -176,7 +176,9 @@ pub fn run(prop: &str, tier: Tier) -> i32 {
     let mut cfgs = registry::seq_configs(prop, tier);
     // maintenance: VH_ONLY=<substring> restricts the run to matching scenarios / configurations
     if let Ok(only) = std::env::var("VH_ONLY") { defs.retain(|d| d.id().contains(&only)); cfgs.retain(|c| c.name.contains(&only)); }
-    if defs.is_empty() && cfgs.is_empty() && prop != "C15" {
+    let mut e3 = registry::e3_tuples(prop, tier);
+    if let Ok(only) = std::env::var("VH_ONLY") { e3.retain(|t| format!("{}/{}", t.family, t.rung).contains(&only)); }
+    if defs.is_empty() && cfgs.is_empty() && e3.is_empty() && prop != "C15" {
         println!("ENGINE-ERROR: property={prop} has no scenarios registered");
         return 2;
     }
@@ -191,6 +193,17 @@ pub fn run(prop: &str, tier: Tier) -> i32 {
         let (cap, max_states) = match tier { Tier::Quick => (40, 400_000), Tier::Thorough => (1200, 5_000_000) };
         rep.extra.insert("engine_seqx".into(), json!("E2 seqx: explicit-state BFS over histories of the real object, deduplicated on internal bookkeeping + reference model"));
         crate::seqx::run_configs(prop, tier, cfgs, cap, max_states, &mut rep);
+    }
+    if !e3.is_empty() {
+        let cap = Duration::from_secs(std::env::var("VH_WALL_CAP_S").ok().and_then(|s| s.parse().ok()).unwrap_or(match tier { Tier::Quick => 45, Tier::Thorough => 1500 }));
+        let had_e1 = rep.traces > 0;
+        let keep = (rep.extra.get("engine").cloned(), rep.assumptions.clone());
+        crate::asyncx::run_tuples(prop, tier, e3, cap, &mut rep);
+        if had_e1 {
+            // both engines ran: keep both descriptions
+            if let Some(e) = keep.0 { let e3name = rep.extra.get("engine").cloned().unwrap_or_default(); rep.extra.insert("engine".into(), json!([e, e3name])); }
+            let mut a = keep.1; a.extend(rep.assumptions.drain(..)); rep.assumptions = a;
+        }
     }
     finish(rep)
 }
@@ -437,6 +450,11 @@ pub fn replay(path: &str) -> i32 {
         Some("mcx") => replay_mcx(&v),
         Some("seqx") => replay_seqx(&v),
         Some("c15") => crate::c15::replay(&v, path),
+        Some("asyncx") => {
+            let prop = v["prop"].as_str().unwrap_or("");
+            let tier = Tier::parse(v["tier"].as_str().unwrap_or("thorough")).unwrap_or(Tier::Thorough);
+            crate::asyncx::replay(prop, tier, v["tuple"].as_str().unwrap_or(""), registry::e3_tuples(prop, tier))
+        }
         other => { eprintln!("unknown engine {:?}", other); 2 }
     }
 }
